@@ -6,6 +6,7 @@ import (
 	"go/token"
 	"go/types"
 	"math/big"
+	"strings"
 
 	"golang.org/x/tools/go/ssa"
 )
@@ -56,8 +57,30 @@ func (s *SCEVAddRec) String() string {
 	return fmt.Sprintf("{%s, +, %s}%s", s.Start.String(), s.Step.String(), loopTag(s.Loop))
 }
 func (s *SCEVAddRec) StringWithRenamer(r Renamer) string {
-	return fmt.Sprintf("{%s, +, %s}%s", s.Start.StringWithRenamer(r), s.Step.StringWithRenamer(r), loopTag(s.Loop))
+	tag := loopTag(s.Loop)
+	// The nesting depth cannot tell SIBLING loops apart (the counters of two loops
+	// in a row, both used after them).  A renamer that knows a canonical name for the
+	// loop (it is asked with a LoopRef) supplies a tag that can.
+	if s.Loop != nil && r != nil {
+		if name := r(&LoopRef{Loop: s.Loop}); strings.HasPrefix(name, LoopNamePrefix) {
+			tag = "<" + name + ">"
+		}
+	}
+	return fmt.Sprintf("{%s, +, %s}%s", s.Start.StringWithRenamer(r), s.Step.StringWithRenamer(r), tag)
 }
+
+// LoopRef is handed to a Renamer to ask for the canonical name of a loop.  A renamer
+// that can name it answers LoopNamePrefix + name; any other answer means "unknown".
+type LoopRef struct{ Loop *Loop }
+
+const LoopNamePrefix = "loop:"
+
+func (l *LoopRef) Name() string                  { return "loop_ref" }
+func (l *LoopRef) String() string                { return "loop_ref" }
+func (l *LoopRef) Type() types.Type              { return types.Typ[types.Invalid] }
+func (l *LoopRef) Parent() *ssa.Function         { return nil }
+func (l *LoopRef) Referrers() *[]ssa.Instruction { return nil }
+func (l *LoopRef) Pos() token.Pos                { return token.NoPos }
 
 // loopTag identifies the loop a recurrence belongs to by its nesting depth. Without it the
 // induction variables of an outer and an inner loop that both count {0, +, 1} are the same
